@@ -28,8 +28,8 @@ OpsMut   == {"append", "insert", "delete", "replace", "split", "set"}
 OpsMutNoSplit == OpsMut \ {"split"}
 OpsSet   == {"set"}
 \* C15: per kind the characters whose combinations are dangerous for that kind, plus a harmless one
-AlphaText    == {97, 60, 38, 93, 62}                          \* a < & ] >
-AlphaAttr    == {97, 60, 38, 39, 34, 9, 10}                   \* a < & ' " TAB LF (a literal TAB/LF in a value reads back as a space)
+AlphaText    == {97, 60, 38, 93, 62, 1}                       \* a < & ] > U+0001 (not a Char: must be refused)
+AlphaAttr    == {97, 60, 38, 39, 34, 9, 10, 1}                \* a < & ' " TAB LF (a literal TAB/LF in a value reads back as a space) U+0001 (not a Char: must be refused)
 AlphaComment == {97, 45, 62}                                  \* a - >
 AlphaCData   == {97, 93, 62}                                  \* a ] >
 AlphaPI      == {97, 63, 62, 32}                              \* a ? > space
